@@ -10,7 +10,7 @@
    not proved (see design/C19.md). *)
 From Coq Require Import List NArith Bool.
 From GQ Require Import Model.C19 Proofs.C19_Lists Proofs.C19_Struct Proofs.C19_Ops Proofs.C19_Heap
-  Proofs.C19_State Proofs.C19_Contig Proofs.C19_Limits Proofs.C19_QLimit Proofs.C19_Cache Proofs.C19_QPay Proofs.C19.
+  Proofs.C19_State Proofs.C19_Contig Proofs.C19_Limits Proofs.C19_QLimit Proofs.C19_Cache Proofs.C19_QPay Proofs.C19 Proofs.C19_Evict.
 Import ListNotations.
 Local Open Scope N_scope.
 
@@ -209,6 +209,63 @@ Theorem pooled_payable_preserved : forall c p o qo,
 Proof. exact lists_payable_preserved. Qed.
 Print Assumptions pooled_payable_preserved.
 
+(* ---------- lifetime eviction (tx_pool.go:loop, case <-evict.C) ---------- *)
+(* Histories extended by eviction ticks (run_xhist: every step is an operation of the
+   histories above or a tick evicting ANY set of queue accounts and ANY set of pending
+   accounts -- which ones have expired is wall clock): every reachable state satisfies the
+   pool invariant, every pending and queued transaction is payable and within the block gas
+   limit, and the hash index holds at most GlobalSlots+GlobalQueue transactions. *)
+Theorem pool_invariant_with_evictions : forall c price_limit st h,
+  let p := run_xhist c (init price_limit st) h in
+  pool_invariant p /\
+  (forall a t, In t (aget a (p_pend p)) \/ In t (aget a (p_queue p)) -> cost t <= st_bal p a /\ t_gas t <= s_maxgas (p_st p)) /\
+  len (map fst (p_all p)) <= c_gslots c + c_gqueue c.
+Proof. exact xreachable_invariant. Qed.
+Print Assumptions pool_invariant_with_evictions.
+
+(* Inductive form: an eviction tick from ANY state satisfying the invariants (any expired
+   sets) leads to such a state, and never grows the hash index.  No reorg run follows a
+   tick in the code: pendingNonces = last pending + 1 holds right after it although a single
+   removeTx does not preserve that clause (the whole list is removed). *)
+Theorem eviction_preserves_invariant : forall c qexp pexp p,
+  IWT p -> heap_ok p -> all_pay p ->
+  let p' := evict_tick c qexp pexp p in
+  IWT p' /\ heap_ok p' /\ all_pay p' /\ pool_invariant p' /\ len (map fst (p_all p')) <= len (map fst (p_all p)).
+Proof. exact evict_tick_preserved. Qed.
+Print Assumptions eviction_preserves_invariant.
+
+(* Exact effect of evicting the pending list of account a: the list is gone, every other
+   pending list and every other account's pendingNonces are unchanged, EVERY queue --
+   including a's own, through which the invalidated followers pass -- is unchanged, the
+   hash index loses exactly the evicted transactions, the chain state is unchanged. *)
+Theorem evict_pending_exact : forall c a p, Inv0 p ->
+  aget a (p_pend (evict_pending c a p)) = [] /\
+  (forall b, b <> a -> aget b (p_pend (evict_pending c a p)) = aget b (p_pend p) /\ pn_get (evict_pending c a p) b = pn_get p b) /\
+  (forall b, aget b (p_queue (evict_pending c a p)) = aget b (p_queue p)) /\
+  (forall x, in_all x (evict_pending c a p) <-> in_all x p /\ ~ In x (aget a (p_pend p))) /\
+  p_st (evict_pending c a p) = p_st p.
+Proof. exact evict_pending_spec. Qed.
+Print Assumptions evict_pending_exact.
+
+(* Exact effect of evicting the queue of account a: that queue is gone, every other queue,
+   the whole pending map, pendingNonces and the chain state are unchanged, the hash index
+   loses exactly the evicted transactions. *)
+Theorem evict_queue_exact : forall c a p, Inv0 p ->
+  aget a (p_queue (evict_queue c a p)) = [] /\
+  (forall b, b <> a -> aget b (p_queue (evict_queue c a p)) = aget b (p_queue p)) /\
+  p_pend (evict_queue c a p) = p_pend p /\ p_pn (evict_queue c a p) = p_pn p /\
+  p_st (evict_queue c a p) = p_st p /\
+  (forall x, in_all x (evict_queue c a p) <-> in_all x p /\ ~ In x (aget a (p_queue p))).
+Proof. exact evict_queue_spec. Qed.
+Print Assumptions evict_queue_exact.
+
+(* removeTx removes exactly its transaction from the hash index (any state with the
+   structural invariant; outofbound or not). *)
+Theorem remove_tx_removes_exactly : forall c t ob p x, Inv0 p ->
+  (in_all x (remove_tx c t ob p) <-> in_all x p /\ x <> t).
+Proof. exact remove_tx_in_all. Qed.
+Print Assumptions remove_tx_removes_exactly.
+
 (* non-vacuity *)
 Example pool_state_nonvacuous :
   map t_nonce (aget 0 (p_pend nv_pool)) = [0; 1] /\ map t_nonce (aget 0 (p_queue nv_pool)) = [3]
@@ -242,3 +299,9 @@ Example queued_payable_nonvacuous :
   aget 0 (p_queue (run_hist qp_cfg (init 1 (St [] [(0,10000000)] 1 5000000)) (qp_hist 420500))) = [T 0 2 10 21000 1000; T 0 3 20 21000 500]
   /\ aget 0 (p_queue (run_hist qp_cfg (init 1 (St [] [(0,10000000)] 1 5000000)) (qp_hist 420499))) = [T 0 2 10 21000 1000].
 Proof. exact qp_nonvacuous_lemma. Qed.
+Example eviction_nonvacuous :
+  let p1 := evict_tick w_cfg [] [0] nv_pool in
+  let p2 := evict_tick w_cfg [1] [] nv_pool in
+  aget 0 (p_pend nv_pool) <> [] /\ aget 0 (p_pend p1) = [] /\ map t_nonce (aget 0 (p_queue p1)) = [3] /\ pn_get p1 0 = 0 /\
+  len (map fst (p_all p1)) = 2 /\ aget 1 (p_queue p2) = [] /\ map t_nonce (aget 0 (p_pend p2)) = [0; 1] /\ len (map fst (p_all p2)) = 3.
+Proof. exact nv_evict. Qed.
